@@ -81,6 +81,7 @@ SimOutcome run_simulated(const SimSetup& s, const std::function<void()>& body) {
   SimOutcome out;
   manifold::Manifold::Impl::meshIDCounter_ = 1;
   manifold::Quality::ResetToDefaults();
+  manifold::verif::ResetCaches();  // hook H4: no state carried over from earlier runs in this process
   manifold::verif::hooks.thresholdDiv = s.thresholdDiv;
   manifold::verif::hooks.syncPoint = sync_cb;
   sim::Config cfg = s.cfg;
@@ -119,6 +120,11 @@ std::string outcome_json(const SimOutcome& o) {
   j.u64("tasks", o.st.tasks).u64("spawns", o.st.spawns);
   j.u64("sync_points", o.st.syncPoints).u64("sync_yields", o.st.syncYields);
   j.u64("mutex_blocks", o.st.mutexBlocks).u64("nondefault", o.st.nondefault);
+  {
+    JArr sites;
+    for (int i = 0; i < 12; i++) sites.i64((int64_t)o.st.syncBySite[i]);
+    j.raw("sync_by_site", sites.done());
+  }
   j.str("hash", hex(o.st.hash));
   j.boolean("step_cap_hit", o.st.stepCapHit).i64("threads", o.st.maxThreads);
   j.boolean("exception", o.exception);
